@@ -79,6 +79,9 @@ type Property struct {
 	NeedsCorpus bool
 	// NeedsSched: only runs in the instrumented build.
 	NeedsSched bool
+	// FreshProcessReplay: violations are confirmed and shrunk in fresh child
+	// processes (they may consist of a one-time write to process-wide state).
+	FreshProcessReplay bool
 }
 
 // Evidence is the property-specific part of an evidence file.
